@@ -51,14 +51,19 @@ func VerifC07_MemoryGasCost() {
 }
 
 // VerifC07_GetData: getData never panics and returns exactly `size` bytes:
-// data[start:start+size] right-padded with zeros.
+// data[start:start+size] right-padded with zeros.  size ranges over [0,12] and
+// [2^63, 2^64) (sizes in between only differ by the amount allocated, which is
+// bounded by gas at every call site and cut by the engine's allocation limit).
 func VerifC07_GetData() {
 	data := vs.Bytes("data", vs.Param("N"))
 	start, size := vs.U64("start"), vs.U64("size")
+	vs.Assume(size <= 12 || size >= 1<<63)
 	var out []byte
 	panicked := vs.NoPanic(func() { out = getData(data, start, size) })
 	vs.Assert(!panicked, "getData must not panic")
-	vs.Assume(size <= 12) // content claim only for small sizes (larger ones allocate)
+	if size > 12 {
+		return
+	}
 	vs.Assert(uint64(len(out)) == size, "result has the requested size")
 	for i := uint64(0); i < size; i++ {
 		var want byte
